@@ -893,11 +893,12 @@ func (s *SSEServer) processRequestAsync(ctx context.Context, request *JSONRPCReq
 			return
 		}
 		event := formatSSEEvent("message", fullResponseData)
+		// Wait for queue space: an answer must not be dropped while the session is alive.
 		select {
 		case session.eventQueue <- event:
 			// Successfully queued
-		default:
-			s.logger.Errorf("Failed to queue error response: event queue full for session %s", session.sessionID)
+		case <-session.done:
+			s.logger.Debugf("Session closed, cannot send error response: %s", session.sessionID)
 		}
 		return
 	}
@@ -1060,8 +1061,6 @@ func (s *SSEServer) handleRequestError(err error, requestID interface{}, session
 		// Error response queued successfully.
 	case <-session.done:
 		s.logger.Debugf("Session closed, cannot send error response: %s", session.sessionID)
-	default:
-		s.logger.Errorf("Failed to queue error response: event queue full for session %s", session.sessionID)
 	}
 }
 
@@ -1090,8 +1089,6 @@ func (s *SSEServer) sendSuccessResponse(requestID interface{}, result interface{
 		// Response queued successfully.
 	case <-session.done:
 		s.logger.Debugf("Session closed, cannot send response: %s", session.sessionID)
-	default:
-		s.logger.Errorf("Failed to queue response: event queue full for session %s", session.sessionID)
 	}
 }
 
